@@ -1,12 +1,14 @@
 import Lean.Data.Json
 import PteraModel.Driver.Tools
 import PteraModel.Driver.Selector
+import PteraModel.Driver.Handlers
 open Lean
 
 def dispatch (j : Json) : Json :=
   match (j.getObjValAs? String "op").toOption.getD "" with
   | "tools" => Ptera.Driver.Tools.handle j
   | "lex" | "ptree" | "parse" | "select0" => Ptera.Driver.Selector.handle j
+  | "handlers" => Ptera.Driver.Handlers.handle j
   | "ping" => Json.mkObj [("ok", "pong")]
   | _ => Json.mkObj [("err", "bad-op")]
 
